@@ -10,7 +10,7 @@ for f in "$@"; do
   b=ok; s=ok
   ( cd "$S/lime-go" && go build ./... && go build -tags verif ./... ) >/dev/null 2>"$S/build.err" || b=FAIL
   if [ $b = ok ]; then
-    ( cd "$S/lime-go" && go test -vet=off -count=1 -timeout 10m ./... ) >"$S/test.out" 2>&1 || s="FAIL($(grep -c '^--- FAIL' "$S/test.out"): $(grep '^--- FAIL' "$S/test.out" | head -3 | awk '{print $3}' | tr '\n' ' '))"
+    ( cd "$S/lime-go" && unshare -n sh -c "ip link set lo up; go test -vet=off -count=1 -timeout 3m ./..." ) >"$S/test.out" 2>&1 || s="FAIL($(grep -c '^--- FAIL' "$S/test.out"): $(grep '^--- FAIL' "$S/test.out" | head -3 | awk '{print $3}' | tr '\n' ' '))"
   else s=-; fi
   echo "$n build=$b suite=$s"
   rm -rf "$S"
